@@ -36,6 +36,7 @@ type transSpec struct {
 
 var transSpecs = []transSpec{
 	{"txcache/wrappedTransaction.go", "WrappedTransaction", "isTransactionMoreValuableForNetwork", "moreValuable", "func"},
+	{"txcache/wrappedTransaction.go", "", "computePricePerUnit", "pricePerUnit", "func"},
 	{"txcache/eviction.go", "TxCache", "isCapacityExceeded", "poolExceeded", "func"},
 	{"txcache/eviction.go", "TxCache", "areThereTooManyBytes", "tooManyBytes", "func"},
 	{"txcache/eviction.go", "TxCache", "areThereTooManySenders", "tooManySenders", "func"},
@@ -224,6 +225,29 @@ func (t *translator) expr(e ast.Expr, want string) (string, string) {
 			a, _ := t.expr(x.Args[0], "Int")
 			b, _ := t.expr(x.Args[1], "Int")
 			return "(max " + a + " " + b + ")", "Int"
+		}
+		// math/big: values are mathematical integers
+		if sel, ok := x.Fun.(*ast.SelectorExpr); ok && len(x.Args) == 0 {
+			switch sel.Sel.Name {
+			case "IsUint64":
+				a, _ := t.expr(sel.X, "Int")
+				return "(decide ((0 : Int) ≤ " + a + ") && decide (" + a + " < (18446744073709551616 : Int)))", "Bool"
+			case "Uint64": // only meaningful under an IsUint64 guard; outside it Go returns the low 64 bits
+				a, _ := t.expr(sel.X, "Int")
+				return "(" + a + " % (18446744073709551616 : Int))", "Int"
+			case "Sign":
+				a, _ := t.expr(sel.X, "Int")
+				return "(cmpInt " + a + " (0 : Int))", "Int"
+			}
+		}
+		if sel, ok := x.Fun.(*ast.SelectorExpr); ok && sel.Sel.Name == "SetUint64" && len(x.Args) == 1 && strings.HasPrefix(t.src(sel.X), "new(big.Int)") {
+			return t.expr(x.Args[0], "Int")
+		}
+		if sel, ok := x.Fun.(*ast.SelectorExpr); ok && sel.Sel.Name == "Div" && len(x.Args) == 2 && strings.HasPrefix(t.src(sel.X), "new(big.Int)") {
+			// (*big.Int).Div is Euclidean division, as Lean's Int `/`
+			a, _ := t.expr(x.Args[0], "Int")
+			b, _ := t.expr(x.Args[1], "Int")
+			return "(" + a + " / " + b + ")", "Int"
 		}
 		if sel, ok := x.Fun.(*ast.SelectorExpr); ok && sel.Sel.Name == "Cmp" && len(x.Args) == 1 {
 			a, _ := t.expr(sel.X, "Int")
